@@ -435,6 +435,8 @@ PROPS = {
             "C04_equality_total", "C04_append_probe_terminates", "C04_step_no_abort_no_native", "C04_native_call_ok",
             "C04_step_no_abort_partial2", "C04_step_preserves", "C04_loop_no_abort", "C04_run_no_abort_partial",
             "C04_fresh_state_inv", "C04_cyclic_table_aborts", "C04_cyclic_heap_not_acyclic",
+            "C04_step_keeps_acyclic", "C04_set_property_ranked", "C04_append_table_ranked",
+            "C04_wellformed_code_ok", "C04_compiled_run_no_abort",
         ]},
         n_quick=200, n_thorough=2000,
         gen_timeout=3000,
@@ -492,10 +494,14 @@ PROPS = {
             "A-37), no native function value names a native that calls back, ForEach's counter is >= 0 in Debug "
             "builds, RegisterUpvalue's captured variable exists. [side] is a hypothesis on the instructions the "
             "loop dispatches (heap_acyclic is not preserved by SetProperty / AppendTable of a table into a table). "
-            "NOT covered: the stdlib natives __min / __max / __sort; nested runs enter through the contract "
-            "reenter_ok (a hypothesis); code_ok (instruction starts, operands inside, jump targets and labels at "
-            "starts) is the VM-level reading of C10 wellformed and is assumed, not derived from it "
-            "(C04VmProofs7.v ends with the table of abort sites)",
+            "(C04_step_keeps_acyclic: every other instruction keeps it; C04_set_property_ranked / "
+            "C04_append_table_ranked: the condition for those two). NOT covered: the stdlib natives __min / __max / "
+            "__sort; nested runs enter through the contract reenter_ok (a hypothesis, not discharged by induction over "
+            "the nesting depth); code_ok (instruction starts, operands inside, jump targets and labels at starts) "
+            "follows from C10 wellformed (C04_wellformed_code_ok, C04_compiled_run_no_abort). The model's == has a "
+            "recursion fuel of 24: tables nested 23 or more levels deep count as an abort in the model although the "
+            "crate only overflows its native stack at a much larger depth (the model is pessimistic there). "
+            "C04VmProofs.v's header lists every abort site of Vm.v with its final status",
             "native stack exhaustion and aborts are runtime behaviour: observed per child process, not derivable from the "
             "models (DESIGN section 9); card nesting deeper than the loaders admit is outside the property (class 14)",
             "serde_yaml needs time quadratic in the nesting depth before it reports its recursion limit (100 000 open "
